@@ -304,6 +304,9 @@ func (c *V2Client) Identify(opts map[string]interface{}, tlsCfg *tls.Config) (ma
 		if v, ok := resp["deflate_level"].(float64); ok {
 			lvl = int(v)
 		}
+		if lvl < 1 || lvl > 9 {
+			lvl = 6 // (the level only matters to the side that compresses)
+		}
 		c.r = flate.NewReader(base)
 		fw, _ := flate.NewWriter(base, lvl)
 		c.w = fw
